@@ -105,7 +105,11 @@ func normalKV(kv map[string][]byte, posted []storage.Message) string {
 
 // c14Setup resolves the pair against its trace.
 func c14Setup(t *testing.T, pr c14Pair) (tr *ceremonyTrace, rec opRecord, msgs []storage.Message, err error) {
-	tr, err = getTrace(t, pr.Trace, pr.N, pr.T)
+	if pr.Trace == "reinit" {
+		tr, err = reinitTrace(t, pr.N, pr.T)
+	} else {
+		tr, err = getTrace(t, pr.Trace, pr.N, pr.T)
+	}
 	if err != nil {
 		return
 	}
@@ -399,6 +403,8 @@ func c14Pairs() []c14Pair {
 			out = append(out, c14Pair{Trace: tc.kind, N: tc.n, T: tc.t, Op: op, Msgs: 1, NewRound: true})
 		}
 		out = append(out, c14Pair{Trace: tc.kind, N: tc.n, T: tc.t, Op: 2, Msgs: 2, Reset: true})
+		// finishing a reinitialisation while the poller handles another participant's signing proposal
+		out = append(out, c14Pair{Trace: "reinit", N: tc.n, T: tc.t, Op: 0, Msgs: 1})
 	}
 	return out
 }
@@ -438,7 +444,7 @@ func TestC14(t *testing.T) {
 		complete := true
 		job := 0
 		for pi, pr := range pairs {
-			if !thorough() && pi%3 != 0 && !pr.Reset && !pr.NewRound {
+			if !thorough() && pi%3 != 0 && !pr.Reset && !pr.NewRound && pr.Trace != "reinit" {
 				complete = false
 				continue // quick: a fixed subset of pairs
 			}
